@@ -46,13 +46,17 @@ Leaves == {Leaf("int"), Leaf("text")}
 Freezable == {"list", "set", "map", "tuple", "udt"}
 Dims == {2}
 
-\* UDTs of the (only) keyspace "ks": name -> field names.  "u" and "Kj" have one field, "kj" two.
+\* UDTs of the (only) keyspace "ks": name -> field names.  "kj" has two fields, the others one.
+\* "Kj", "Big Type", "other-udt" and a"b need quoting in CQL (mixed case, space, dash, embedded double quote).
 UdtFields == ("u" :> <<"f1">>) @@ ("kj" :> <<"f1", "F2">>) @@ ("Kj" :> <<"f1">>)
+          @@ ("Big Type" :> <<"f1">>) @@ ("other-udt" :> <<"f1">>) @@ ("a\"b" :> <<"f1">>)
 UdtNames  == DOMAIN UdtFields
 \* hex(ASCII) as Cassandra prints names inside UserType(...)
 Hex == ("u" :> "75") @@ ("kj" :> "6b6a") @@ ("Kj" :> "4b6a") @@ ("f1" :> "6631") @@ ("F2" :> "4632")
-\* the name as a CQL identifier (ColumnIdentifier.maybeQuote, see CqlLex.tla)
+    @@ ("Big Type" :> "4269672054797065") @@ ("other-udt" :> "6f746865722d756474") @@ ("a\"b" :> "612262")
+\* the name as a CQL identifier (ColumnIdentifier.maybeQuote, see CqlLex.tla: Quote doubles the double quote)
 UdtCql == ("u" :> "u") @@ ("kj" :> "kj") @@ ("Kj" :> "\"Kj\"")
+       @@ ("Big Type" :> "\"Big Type\"") @@ ("other-udt" :> "\"other-udt\"") @@ ("a\"b" :> "\"a\"\"b\"")
 
 \* trees by depth.  NF(d): not rooted at frozen / reversed; All(d): with frozen roots
 RECURSIVE NF(_)
@@ -69,7 +73,23 @@ Build(S, narrow) ==
     \cup {Vec(x, d) : x \in S, d \in Dims}
 NF(d) == IF d <= 1 THEN Leaves ELSE Build(All(d - 1), Narrow /\ d = MaxDepth)
 
-Trees == LET S == All(MaxDepth) IN S \cup {Un("reversed", x) : x \in S}
+\* type strings with two and three QUOTED identifiers at different positions (map key / value, tuple members,
+\* inside frozen<list<..>>), bare (CQL notation only) and frozen (both notations)
+QNames == {"Kj", "Big Type", "other-udt", "a\"b"}
+Q(nm)  == Udt(nm, <<Leaf("int")>>)
+FQ(nm) == Un("frozen", Q(nm))
+QTrees ==
+         {Bin("map", Q(a), Q(b)) : a \in QNames, b \in QNames}
+    \cup {Bin("map", FQ(a), FQ(b)) : a \in QNames, b \in QNames}
+    \cup {Bin("map", Q(a), Un("frozen", Un("list", Q(b)))) : a \in QNames, b \in QNames}
+    \cup {Bin("map", FQ(a), Un("frozen", Un("list", FQ(b)))) : a \in QNames, b \in QNames}
+    \cup {Bin("tuple", Q(a), Q(b)) : a \in QNames, b \in QNames}
+    \cup {Un("frozen", Bin("tuple", FQ(a), FQ(b))) : a \in QNames, b \in QNames}
+    \cup {Tr("tuple", <<Q(a), Q(b), Q(c)>>, "", 0) : a \in QNames, b \in QNames, c \in QNames}
+    \cup {Bin("map", Q(a), Un("frozen", Bin("tuple", Q(b), Q(c)))) : a \in QNames, b \in QNames, c \in QNames}
+    \cup {Bin("map", FQ(a), Un("frozen", Bin("tuple", FQ(b), FQ(c)))) : a \in QNames, b \in QNames, c \in QNames}
+
+Trees == LET S == All(MaxDepth) IN S \cup {Un("reversed", x) : x \in S} \cup QTrees
 
 RECURSIVE Depth(_)
 Max(S) == CHOOSE m \in S : \A x \in S : x <= m
@@ -83,7 +103,7 @@ Joined(parts, sep) == IF Len(parts) = 0 THEN <<>>
                       ELSE IF Len(parts) = 1 THEN parts[1]
                       ELSE parts[1] \o <<sep>> \o Joined(Tail(parts), sep)
 
-RECURSIVE CqlName(_), CassName(_), StripFrozen(_), CassOkIn(_, _)
+RECURSIVE CqlName(_), CassName(_), StripFrozen(_), CassOkIn(_, _), PyForm(_)
 
 CqlHead == ("list" :> "list") @@ ("set" :> "set") @@ ("map" :> "map") @@ ("tuple" :> "tuple")
 CqlName(t) ==
@@ -93,6 +113,18 @@ CqlName(t) ==
       [] t.k = "reversed"           -> CqlName(t.a[1])
       [] t.k = "vector"             -> <<"vector", "<">> \o CqlName(t.a[1]) \o <<", ", ToString(t.d), ">">>
       [] OTHER -> <<CqlHead[t.k], "<">> \o Joined([i \in 1..Len(t.a) |-> CqlName(t.a[i])], ", ") \o <<">">>
+
+\* the nested list cqltype_to_python documents for a CQL type string: a type with parameters is its name followed
+\* by ONE list holding the forms of its parameters side by side
+\*   int -> <<"int">>     frozen<tuple<text, int>> -> <<"frozen", <<"tuple", <<"text", "int">>>>>>
+RECURSIVE Flat(_)
+Flat(parts) == IF Len(parts) = 0 THEN <<>> ELSE Head(parts) \o Flat(Tail(parts))
+PyForm(t) ==
+    CASE t.k \in {"int", "text"} -> <<t.k>>
+      [] t.k = "udt"             -> <<UdtCql[t.nm]>>
+      [] t.k = "reversed"        -> PyForm(t.a[1])
+      [] t.k = "vector"          -> <<"vector", PyForm(t.a[1]) \o <<ToString(t.d)>>>>
+      [] OTHER                   -> <<t.k, Flat([i \in 1..Len(t.a) |-> PyForm(t.a[i])])>>
 
 \* class of the marshal package per kind
 MarshalClass == ("int" :> "Int32Type") @@ ("text" :> "UTF8Type") @@ ("list" :> "ListType") @@ ("set" :> "SetType")
@@ -123,11 +155,12 @@ VARIABLES t,          \* the type tree
           cass,       \* CassName(t)
           cassok,     \* CassOk(t)
           cql,        \* CqlName(t)
-          stripped    \* CqlName(StripFrozen(t))
-vars == <<t, cass, cassok, cql, stripped>>
+          stripped,   \* CqlName(StripFrozen(t))
+          py          \* PyForm(t): the structure cqltype_to_python(CqlName(t)) must have
+vars == <<t, cass, cassok, cql, stripped, py>>
 
 Is(tt) == /\ t = tt /\ cass = CassName(tt) /\ cassok = CassOk(tt) /\ cql = CqlName(tt)
-          /\ stripped = CqlName(StripFrozen(tt))
+          /\ stripped = CqlName(StripFrozen(tt)) /\ py = PyForm(tt)
 
 Init == \E tt \in Trees : Is(tt)
 Next == UNCHANGED vars                       \* enumerator: the initial states are the cases
@@ -143,7 +176,7 @@ InitGrow == \E tt \in Small : Is(tt)
 Grow == /\ t.k # "reversed"
         /\ \E tt \in Grown(t) : /\ Depth(tt) <= MaxDepth
                                /\ t' = tt /\ cass' = CassName(tt) /\ cassok' = CassOk(tt) /\ cql' = CqlName(tt)
-                               /\ stripped' = CqlName(StripFrozen(tt))
+                               /\ stripped' = CqlName(StripFrozen(tt)) /\ py' = PyForm(tt)
 
 -----------------------------------------------------------------------------
 \* checked on the specification
@@ -169,12 +202,14 @@ Unfreeze(s, i, pend, stk) ==
     ELSE <<s[i]>> \o Unfreeze(s, i + 1, FALSE, stk)
 StripExact == stripped = Unfreeze(cql, 1, FALSE, <<>>)
 
-DepthBound == Depth(t) <= MaxDepth
+DepthBound == t \in QTrees \/ Depth(t) <= MaxDepth
 ReversedOutermostOnly == \A i \in 1..Len(cass) : cass[i] = "ReversedType" => i = 1
 
 \* vacuity witnesses (must be VIOLATED)
 Witness_FrozenInside == ~(cassok /\ t.k = "map" /\ t.a[2].k = "frozen" /\ t.a[2].a[1].k = "udt")
 Witness_ReversedVector == ~(cassok /\ t.k = "reversed" /\ t.a[1].k = "vector")
 Witness_NotCassOk == ~(~cassok /\ t.k = "tuple")
+Witness_ThreeQuoted == ~(~cassok /\ t \in QTrees /\ t.k = "map" /\ Len(py[2]) = 3 /\ py[2][1] = "\"a\"\"b\""
+                           /\ py[2][3] = <<"tuple", <<"\"Big Type\"", "\"other-udt\"">>>>)
 Witness_StripChanges == ~(stripped # cql /\ Len(cql) - Len(stripped) >= 6)
 =============================================================================
